@@ -19,7 +19,7 @@
     the start of a token drops the token's first byte and re-reads the rest as quoted text.
     Modelled as is (`s.drop 1`); the rendering spec never produces it.
   * narrowing made explicit: `platform_command_index++` on an `int16_t` wraps (`wrap16`).
-  * `add_tag_enclosed` is modelled AFTER the fix d7f054e (a backslash is an escape only when a
+  * `add_tag_enclosed` is modelled AFTER the fix 94ac342 (a backslash is an escape only when a
     byte follows); before it the code read past the terminating NUL.
   * `MML_Input`: lines containing a NUL byte, a `*` in the track list, or any MML command other
     than `'…'`, `|`, `;` in a track line are outside the model (`Status.unsupported`).
